@@ -212,7 +212,7 @@ GROUPS = {
         ],
     },
     "view": {
-        "import": "Haiway.Bridge.MetricsView", "open": "Haiway.MiniPy Haiway.Bridge.Metrics",
+        "import": "Haiway.Bridge.MetricsViewEndToEnd", "open": "Haiway.MiniPy Haiway.Bridge.Metrics",
         "defs": {
             name: Target("src/haiway/context/metrics.py", "ScopeMetrics", "metrics", ["merge"], {"_metrics": 0}, {},
                          containers={"self._metrics", "metrics"},
@@ -244,6 +244,8 @@ GROUPS = {
             ("view_refines", ["gViewPre", "gViewBody", "gViewPost", "gView"], "ViewRefines gView",
              "exact view_of_parts (pre := gViewPre) (body := gViewBody) (post := gViewPost) rfl view_pre\n"
              "    (by intro st; view_eval) view_step view_post (by decide) (by decide)"),
+            # C10's merged-view law restated of the regenerated term (values of Metrics.mergeInto)
+            ("view_c10", ["gViewPre", "gViewBody", "gViewPost", "gView"], "ViewProps gView", "exact viewProps_of_refines view_refines"),
         ],
     },
     "spawn": {
